@@ -32,6 +32,35 @@
    Blockchain.SetL1Head writes first and announces the head on the L1-head feed second (no event
    for a failed write): `announced` is the last head sent on the feed.
 
+   THE ACCESSOR (the head the node REPORTS).  The property speaks about the head "the node records
+   (and uses for finality status ...)": the rest of the node (rpc handlers, metrics, db info) never
+   looks at the database record, it calls Blockchain.L1Head().  That accessor is an observable of its
+   own: `stored` is the durable record, a READ is a call of the accessor with a start and an end
+   (ReadStart .. ReadEnd) that may overlap a SetL1Head of the client, and a restart builds a new
+   Blockchain object on the record left on disk.  As coded the accessor is core.GetL1Head on the
+   database, so a read is the Get at its start.  ReportedIsRecorded: what a read returns is a value
+   the record held at some moment between the read's start and its end - in particular a read that
+   starts after a SetL1Head has completed returns that head or a later one; ReadsMonotone: completed
+   reads never go back; AccessorIsRecord: with no read in flight the accessor would answer the record.
+   CachedAccessor (MUTANT switch) gives the accessor an in-memory copy that SetL1Head refreshes and a
+   reader fills on a miss, check-then-act: the reader's database value is stored when the read ENDS,
+   whatever was written meanwhile.  L1_x_cache.cfg must violate ReportedIsRecorded (restart with a
+   head on disk; first read overlaps the first SetL1Head; every later read reports the old head).
+
+   ERROR KINDS.  A failing answer of the L1 node has a kind (ErrKinds): a transport error, a timeout
+   (context.DeadlineExceeded of the per-call context), eth.ErrNotFound ("the node cannot name a
+   finalised block": a null answer to eth_getBlockByNumber("finalized")), context.Canceled coming out
+   of the provider while the client's own context is live.  The client as written looks at none of
+   them (it only asks its own context): every failing FinalisedHeight answer inside setL1Head is
+   retried and leaves buffer and head untouched (FailedFinIsRetried); a failing answer anywhere in the
+   catch-up scan abandons the scan.  The head moves only at a FinalisedHeight answer that REPORTED a
+   finalised height, and not above that height (HeadWithinReported).  NotFoundMeansLatest (MUTANT
+   switch): a not-found answer inside setL1Head is taken as "everything up to the tip is final";
+   L1_x_notfound.cfg must violate HeadWithinReported, L1_x_notfound2.cfg StoredFinalisedCanonical
+   (a later, perfectly legal reorg of the non-finalised block leaves a removed commit recorded).
+   `act` (output only, hidden from VIEW) names the last step: [a, o, f] = action, outcome kind,
+   finalised height the answer reported (-1: none).
+
    Events are numbered 1,2,3.. in creation order; l1of/l2of give their L1 block and Starknet block
    number.  0 = no event. *)
 EXTENDS Naturals, Integers, Sequences, FiniteSets, TLC
@@ -56,6 +85,18 @@ CONSTANTS
   AnnounceBeforeWrite,
       \* MUTANT switch: TRUE = Blockchain.SetL1Head sends the head on the feed before it writes
       \* (a failed write has been announced).  L1_x_announce.cfg must violate AnnouncedIsRecorded.
+  MaxReads,
+      \* calls of the accessor Blockchain.L1Head() by the rest of the node (0: the dimension is off)
+  CachedAccessor,
+      \* MUTANT switch (never the code): TRUE = Blockchain keeps an in-memory copy of the head;
+      \* SetL1Head stores the new head in it after the write, L1Head() serves it and, on a miss, reads the
+      \* database and stores what it read when it returns (check-then-act).  L1_x_cache.cfg must violate
+      \* ReportedIsRecorded.
+  ErrKinds,
+      \* kinds of failing answers of the L1 node: subset of {"transport", "timeout", "notfound", "cancel"}
+  NotFoundMeansLatest,
+      \* MUTANT switch: TRUE = the finalisedHeight helper of setL1Head answers a "notfound" failure of
+      \* FinalisedHeight with LatestHeight instead of retrying.  L1_x_notfound.cfg must violate HeadWithinReported.
   FinalityAfterNotices
       \* TRUE (the registered assumption on the L1 node's timing): a height is reported finalised
       \* only after the removal notices of reorgs at or below it have left the client's channel.
@@ -92,13 +133,26 @@ VARIABLES
   \* ---- history, for the property only
   applied,       \* events merged into the buffer at some time
   removedSeen,   \* events whose removal notice was merged
-  announced      \* the last head sent on the L1-head feed (0 none)
+  announced,     \* the last head sent on the L1-head feed (0 none)
+  \* ---- the accessor Blockchain.L1Head() and its readers
+  cache,         \* CachedAccessor only: the in-memory copy (0 = empty)
+  rd,            \* the read in flight: [pc |-> "idle" | "miss" | "hit", val |-> what it will return,
+                 \*   seen |-> the values the record has held since the read started (history)]
+  nreads,        \* reads started so far
+  reported,      \* what the last completed read returned (history; 0 none)
+  \* ---- output only (not in VIEW)
+  act            \* the last step: [a |-> action, o |-> outcome kind, f |-> reported finalised height or -1]
 
 nodeVars   == <<blocks, top, fin, nEv, l1of, l2of, reorgs, subUp, subPos, subErr, chan, delivered>>
 chainVars  == <<blocks, top, fin, nEv, l1of, l2of, reorgs, subPos>>   \* nodeVars without the subscription / delivery part
 clientVars == <<pc, chunk, cFin, cTo, cFound, buffer, stored, fails, wfails, restarts>>
 histVars   == <<applied, removedSeen, announced>>
 vars == <<nodeVars, clientVars, histVars>>
+accVars == <<cache, rd, nreads, reported>>
+allVars == <<vars, accVars, act>>
+
+Outcomes == {"ok"} \cup ErrKinds
+Idle == [pc |-> "idle", val |-> 0, seen |-> {}]
 
 Max(S) == CHOOSE x \in S : \A y \in S : y <= x
 Min(S) == CHOOSE x \in S : \A y \in S : x <= y
@@ -116,6 +170,8 @@ Init ==
   /\ pc = "chainid" /\ chunk \in ChunkSizes /\ cFin = 0 /\ cTo = 0 /\ cFound = FALSE
   /\ buffer = [h \in Heights |-> 0] /\ stored = 0 /\ fails = 0 /\ wfails = 0 /\ restarts = 0
   /\ applied = {} /\ removedSeen = {} /\ announced = 0
+  /\ cache = 0 /\ rd = Idle /\ nreads = 0 /\ reported = 0
+  /\ act = [a |-> "Init", o |-> "ok", f |-> -1]
 
 ----------------------------------------------------------------------------
 (* L1 node *)
@@ -235,31 +291,39 @@ ClientGone ==
   /\ applied' = (IF stored' = 0 THEN {} ELSE {stored'}) /\ removedSeen' = {}
 
 (* the finalisedHeight retry loop of setL1Head, at the end of catch-up and on every tick, then the
-   pick / prune / write of setL1Head.  ok: FinalisedHeight answered; wok: the Put of the head record
-   succeeded (only a setL1Head that found a finalised entry writes: otherwise wok is TRUE);
-   fatal: the caller returns a write error from Run. *)
-FinAndSet(from, to, ok, wok, fatal) ==
+   pick / prune / write of setL1Head.  o: how FinalisedHeight answered ("ok" or the kind of failure);
+   wok: the Put of the head record succeeded (only a setL1Head that found a finalised entry writes:
+   otherwise wok is TRUE); fatal: the caller returns a write error from Run.
+   As coded every failure is retried whatever its kind.  NotFoundMeansLatest: a not-found answer is
+   replaced by LatestHeight (taken in the same step) and setL1Head goes on with the tip as "finalised". *)
+FinAndSet(from, to, o, wok, fatal) ==
+  LET fallback == NotFoundMeansLatest /\ o = "notfound"
+      ok == o = "ok" \/ fallback
+      f == IF fallback THEN top ELSE fin              \* the height setL1Head takes for finalised
+  IN
   /\ pc = from
-  /\ IF ~ok THEN
-       /\ wok /\ CanFail /\ Failed /\ pc' = pc
-       /\ UNCHANGED <<nodeVars, cFin, cTo, cFound, buffer, stored, wfails, histVars>>
-     ELSE IF Cand(fin) = {} THEN                       \* "No finalised logs": nothing is written
-       /\ wok /\ pc' = to
-       /\ UNCHANGED <<nodeVars, cFin, cTo, cFound, buffer, stored, fails, wfails, histVars>>
-     ELSE IF wok THEN                                  \* written, then announced on the feed
-       /\ stored' = HeadOf(fin) /\ announced' = HeadOf(fin) /\ buffer' = Pruned(fin) /\ pc' = to
-       /\ UNCHANGED <<nodeVars, cFin, cTo, cFound, fails, wfails, applied, removedSeen>>
-     ELSE                                              \* the Put failed; the buffer is pruned already
-       /\ wfails < MaxWriteFail /\ wfails' = wfails + 1 /\ fails' = fails
-       /\ stored' = stored
-       /\ announced' = (IF AnnounceBeforeWrite THEN HeadOf(fin) ELSE announced)
-       /\ IF fatal THEN /\ pc' = "stopped" /\ ClientGone /\ UNCHANGED chainVars
-                   ELSE /\ pc' = to /\ buffer' = Pruned(fin)
-                        /\ UNCHANGED <<nodeVars, cFin, cTo, cFound, applied, removedSeen>>
+  /\ fails' = (IF o = "ok" THEN fails ELSE fails + 1)
+  /\ (o # "ok") => CanFail
+  /\ IF ~ok THEN                                        \* retried
+          /\ wok /\ pc' = pc
+          /\ UNCHANGED <<nodeVars, cFin, cTo, cFound, buffer, stored, wfails, histVars>>
+     ELSE IF Cand(f) = {} THEN                          \* "No finalised logs": nothing is written
+          /\ wok /\ pc' = to
+          /\ UNCHANGED <<nodeVars, cFin, cTo, cFound, buffer, stored, wfails, histVars>>
+     ELSE IF wok THEN                                   \* written, then announced on the feed
+          /\ stored' = HeadOf(f) /\ announced' = HeadOf(f) /\ buffer' = Pruned(f) /\ pc' = to
+          /\ UNCHANGED <<nodeVars, cFin, cTo, cFound, wfails, applied, removedSeen>>
+     ELSE                                               \* the Put failed; the buffer is pruned already
+          /\ wfails < MaxWriteFail /\ wfails' = wfails + 1
+          /\ stored' = stored
+          /\ announced' = (IF AnnounceBeforeWrite THEN HeadOf(f) ELSE announced)
+          /\ IF fatal THEN /\ pc' = "stopped" /\ ClientGone /\ UNCHANGED chainVars
+                      ELSE /\ pc' = to /\ buffer' = Pruned(f)
+                           /\ UNCHANGED <<nodeVars, cFin, cTo, cFound, applied, removedSeen>>
   /\ UNCHANGED <<chunk, restarts>>
 
-CatchFin(ok, wok) == FinAndSet("catchfin", "watch", ok, wok, CatchUpWriteErrorFatal)
-TickFin(ok, wok)  == FinAndSet("tickfin", "loop", ok, wok, ~SwallowWriteError)
+CatchFin(o, wok) == FinAndSet("catchfin", "watch", o, wok, CatchUpWriteErrorFatal)
+TickFin(o, wok)  == FinAndSet("tickfin", "loop", o, wok, ~SwallowWriteError)
 
 (* subscribeToUpdates: a new subscription starts at the current head *)
 Watch(ok) ==
@@ -314,13 +378,74 @@ NodeNext == \/ \E n \in 0..MaxPerBlock : Mine(n)
             \/ \E k \in Heights : Reorg(k)
             \/ Push \/ SubFail
 
-ClientNext == \/ \E ok \in BOOLEAN : ChainID(ok) \/ Latest(ok) \/ Fin0(ok) \/ Filter(ok) \/ Watch(ok)
-              \/ \E ok, wok \in BOOLEAN : CatchFin(ok, wok) \/ TickFin(ok, wok)
-              \/ Consume \/ HandleSubErr \/ TickStart
-              \/ Restart
+Act(a, o, f) == act' = [a |-> a, o |-> o, f |-> f]
+Rep(o) == IF o = "ok" THEN fin ELSE -1        \* the finalised height a FinalisedHeight answer reports
 
-Next == NodeNext \/ ClientNext
-Spec == Init /\ [][Next]_vars
+----------------------------------------------------------------------------
+(* the accessor Blockchain.L1Head() *)
+
+(* what a step of the client does to the accessor side: Blockchain.SetL1Head refreshes the in-memory
+   copy after the write (CachedAccessor); a read in flight has now overlapped one more value of the
+   record; a restart is a new process - a new Blockchain object, the old readers are gone *)
+AccFollow ==
+  IF restarts' # restarts THEN
+    cache' = 0 /\ rd' = Idle /\ UNCHANGED <<nreads, reported>>
+  ELSE IF stored' # stored THEN
+    /\ cache' = (IF CachedAccessor THEN stored' ELSE cache)
+    /\ rd' = (IF rd.pc = "idle" THEN rd ELSE [rd EXCEPT !.seen = @ \cup {stored'}])
+    /\ UNCHANGED <<nreads, reported>>
+  ELSE UNCHANGED accVars
+
+(* L1Head() is entered: as coded core.GetL1Head(database); with the in-memory copy: serve it, on a
+   miss read the database *)
+ReadStart ==
+  /\ rd.pc = "idle" /\ nreads < MaxReads
+  /\ nreads' = nreads + 1
+  /\ rd' = (IF CachedAccessor /\ cache # 0 THEN [pc |-> "hit", val |-> cache, seen |-> {stored}]
+                                           ELSE [pc |-> "miss", val |-> stored, seen |-> {stored}])
+  /\ UNCHANGED <<vars, cache, reported>> /\ Act("ReadStart", "ok", -1)
+
+(* L1Head() returns; a reader that missed stores what it read (a not-found is not stored) *)
+ReadEnd ==
+  /\ rd.pc # "idle"
+  /\ cache' = (IF CachedAccessor /\ rd.pc = "miss" /\ rd.val # 0 THEN rd.val ELSE cache)
+  /\ reported' = rd.val /\ rd' = Idle
+  /\ UNCHANGED <<vars, nreads>> /\ Act("ReadEnd", "ok", -1)
+
+(* what a call of the accessor entered now would return *)
+AccessorView == IF CachedAccessor /\ cache # 0 THEN cache ELSE stored
+
+(* every step of the node or the client, completed by its effect on the accessor side and by `act`
+   (one named action per disjunct, so that TLC's coverage stays per action) *)
+NodeTail == UNCHANGED accVars /\ Act("Node", "ok", -1)
+ClientTail(a, o, f) == AccFollow /\ Act(a, o, f)
+AMine(n)     == Mine(n) /\ NodeTail
+AFinalise(h) == Finalise(h) /\ NodeTail
+AReorg(k)    == Reorg(k) /\ NodeTail
+APush        == Push /\ NodeTail
+ASubFail     == SubFail /\ NodeTail
+AChainID(o)  == ChainID(o = "ok") /\ ClientTail("ChainID", o, -1)
+ALatest(o)   == Latest(o = "ok") /\ ClientTail("Latest", o, -1)
+AFin0(o)     == Fin0(o = "ok") /\ ClientTail("Fin0", o, Rep(o))
+AFilter(o)   == Filter(o = "ok") /\ ClientTail("Filter", o, -1)
+AWatch(o)    == Watch(o = "ok") /\ ClientTail("Watch", o, -1)
+ACatchFin(o, wok) == CatchFin(o, wok) /\ ClientTail("CatchFin", o, Rep(o))
+ATickFin(o, wok)  == TickFin(o, wok) /\ ClientTail("TickFin", o, Rep(o))
+AConsume      == Consume /\ ClientTail("Consume", "ok", -1)
+AHandleSubErr == HandleSubErr /\ ClientTail("HandleSubErr", "ok", -1)
+ATickStart    == TickStart /\ ClientTail("TickStart", "ok", -1)
+ARestart      == Restart /\ ClientTail("Restart", "ok", -1)
+
+Next == \/ \E n \in 0..MaxPerBlock : AMine(n)
+        \/ \E h \in Heights : AFinalise(h)
+        \/ \E k \in Heights : AReorg(k)
+        \/ APush \/ ASubFail
+        \/ \E o \in Outcomes : AChainID(o) \/ ALatest(o) \/ AFin0(o) \/ AFilter(o) \/ AWatch(o)
+        \/ \E o \in Outcomes, wok \in BOOLEAN : ACatchFin(o, wok) \/ ATickFin(o, wok)
+        \/ AConsume \/ AHandleSubErr \/ ATickStart
+        \/ ARestart
+        \/ ReadStart \/ ReadEnd
+Spec == Init /\ [][Next]_allVars
 
 ----------------------------------------------------------------------------
 (* Properties *)
@@ -331,6 +456,9 @@ TypeOK ==
   /\ wfails \in 0..MaxWriteFail /\ announced \in 0..MaxEvents
   /\ stored \in 0..MaxEvents /\ fails \in 0..MaxFail /\ reorgs \in 0..MaxReorgs /\ restarts \in 0..MaxRestarts
   /\ subPos <= top /\ delivered \subseteq 1..nEv /\ applied \subseteq delivered
+  /\ cache \in 0..MaxEvents /\ nreads \in 0..MaxReads /\ reported \in 0..MaxEvents
+  /\ rd.pc \in {"idle", "miss", "hit"} /\ rd.val \in 0..MaxEvents /\ rd.seen \subseteq 0..MaxEvents
+  /\ ErrKinds \subseteq {"transport", "timeout", "notfound", "cancel"}
 
 (* the best delivered (merged), not removed event at or below height f; 0 if there is none.
    Inside one block the later log wins. *)
@@ -388,5 +516,36 @@ BufferSane ==
 (* canonical commits carry increasing Starknet block numbers (sanity of the node model) *)
 ChainSane == \A a, b \in CanonicalEvents : a < b => l2of[a] < l2of[b] /\ l1of[a] <= l1of[b]
 
-view == <<nodeVars, clientVars, histVars>>
+----------------------------------------------------------------------------
+(* Properties of the accessor (the head the node reports) *)
+
+IsReadEnd == rd.pc # "idle" /\ rd'.pc = "idle" /\ restarts' = restarts
+
+(* a read returns a value the record held at some moment between its start and its end; so a read
+   that starts after a SetL1Head has completed returns that head or a later one *)
+ReportedIsRecorded == [][IsReadEnd => rd.val \in rd.seen]_allVars
+
+(* completed reads never go back to an older Starknet block, nor from a head to none *)
+NotOlder(a, b) == b = 0 \/ (a # 0 /\ l2of[a] >= l2of[b])
+ReadsMonotone == [][IsReadEnd => NotOlder(rd.val, reported)]_allVars
+
+(* with no read in flight the accessor would answer the record *)
+AccessorIsRecord == rd.pc = "idle" => AccessorView = stored
+
+(* not a property: its violation shows that a read overlapping a SetL1Head is reachable (vacuity guard) *)
+NoOverlap == rd.pc = "idle" \/ Cardinality(rd.seen) = 1
+
+(* Properties of the error kinds *)
+
+IsFinAnswer == act'.a \in {"CatchFin", "TickFin"}
+(* a failing FinalisedHeight answer inside setL1Head, of whatever kind, is retried: the client stays
+   where it is, buffer, record and feed untouched *)
+FailedFinIsRetried == [][(IsFinAnswer /\ act'.o # "ok") =>
+                            (pc' = pc /\ stored' = stored /\ buffer' = buffer /\ announced' = announced)]_allVars
+(* the head moves only at a FinalisedHeight answer in which the L1 node reported a finalised height,
+   and never to an event above that height *)
+HeadWithinReported == [][stored' # stored =>
+                            (IsFinAnswer /\ act'.o = "ok" /\ l1of[stored'] <= act'.f)]_allVars
+
+view == <<nodeVars, clientVars, histVars, accVars>>
 =============================================================================
